@@ -127,6 +127,7 @@ type OpSpec struct {
 	Ini      *IniOpSpec `json:"ini,omitempty"`
 	IniOpts  int        `json:"iniopts"`
 	Complete string     `json:"complete"`
+	Attach   *AttachSpec `json:"attach,omitempty"`
 }
 
 type Scenario struct {
@@ -323,6 +324,38 @@ type runner struct {
 	execLog  []string
 	unkLog   []string
 	cmdIDs   map[flags.Commander]string
+	prepared map[*AttachSpec]*preparedAttach
+}
+
+// preparedAttach holds the data object of an attach operation. Attach operations in the middle of a
+// history are prepared at setup, so that every leaf is observable (with its initial value) from the start.
+type preparedAttach struct {
+	data interface{}   // struct data of AddGroup / AddCommand
+	x    reflect.Value // target variable of AddOption
+}
+
+func (r *runner) prepare(a *AttachSpec) *preparedAttach {
+	if pa := r.prepared[a]; pa != nil {
+		return pa
+	}
+	pa := &preparedAttach{}
+	if a.Kind == "option" {
+		f := &a.Fields[0]
+		pt := buildType(f.Type) // *T
+		x := reflect.New(pt.Elem())
+		if v, ok := r.sc.Init[strconv.Itoa(f.Fid)]; ok && v.P != nil && v.P.V != nil {
+			x = r.mkValue(pt, &v, f.Fid, f.Type)
+		}
+		r.leaves = append(r.leaves, leaf{fid: f.Fid, root: x, path: nil, spec: f.Type})
+		pa.x = x
+	} else if a.Kind == "group" || !(a.Exec != nil || (a.Usage != nil && len(a.Fields) == 0)) {
+		pa.data, _ = r.newData(a.Fields)
+	}
+	if r.prepared == nil {
+		r.prepared = map[*AttachSpec]*preparedAttach{}
+	}
+	r.prepared[a] = pa
+	return pa
 }
 
 func hexList(a []string) string {
@@ -669,6 +702,82 @@ func (r *runner) newData(fields []FieldSpec) (interface{}, reflect.Value) {
 	return ptr.Interface(), ptr.Elem()
 }
 
+// applyAttach performs one AddGroup / AddCommand / AddOption call (at setup or in the middle of a history).
+func (r *runner) applyAttach(p *flags.Parser, a *AttachSpec) (err error, pan interface{}) {
+	defer func() {
+		if x := recover(); x != nil {
+			pan = x
+		}
+	}()
+	target := cmdAt(p, a.Path)
+	if a.Kind == "option" {
+		// Group.AddOption on the command's own group: a hand-built Option (fields taken from the
+		// leaf's tag, which only uses keys that map onto Option fields) bound to a fresh variable
+		f := &a.Fields[0]
+		m, terr := flags.VerifScanTag(l1dec(f.Tag))
+		if terr != nil {
+			panic("harness: bad tag for AddOption: " + terr.Error())
+		}
+		get := func(k string) string {
+			if v := m[k]; len(v) > 0 {
+				return v[0]
+			}
+			return ""
+		}
+		truthy := func(v string) bool { return !(v == "" || v == "false" || v == "no" || v == "0") }
+		o := &flags.Option{
+			Description: get("description"), LongName: get("long"), Default: m["default"],
+			EnvDefaultKey: get("env"), EnvDefaultDelim: get("env-delim"),
+			OptionalArgument: truthy(get("optional")), OptionalValue: m["optional-value"],
+			Required: truthy(get("required")), ValueName: get("value-name"), DefaultMask: get("default-mask"),
+			Choices: m["choice"], Hidden: truthy(get("hidden")),
+		}
+		if sn := get("short"); sn != "" {
+			o.ShortName, _ = utf8.DecodeRuneInString(sn)
+		}
+		target.AddOption(o, r.prepare(a).x.Interface())
+	} else if a.Kind == "group" {
+		data := r.prepare(a).data
+		var g *flags.Group
+		g, err = target.AddGroup(l1dec(a.Short), l1dec(a.Long), data)
+		if err == nil {
+			g.Namespace = l1dec(a.Ns)
+			g.EnvNamespace = l1dec(a.EnvNs)
+			g.Hidden = a.Hidden
+		}
+	} else {
+		var data interface{}
+		newPath := append(append([]int{}, a.Path...), len(target.Commands()))
+		if a.Exec != nil {
+			var e *string
+			if a.Exec.Err != nil {
+				x := l1dec(*a.Exec.Err)
+				e = &x
+			}
+			if a.Usage != nil {
+				data = &ExecUsageCmd{ExecCmd: ExecCmd{run: r, id: pathID(newPath), err: e}, usage: l1dec(*a.Usage)}
+			} else {
+				data = &ExecCmd{run: r, id: pathID(newPath), err: e}
+			}
+		} else if a.Usage != nil && len(a.Fields) == 0 {
+			data = &UsageOnly{usage: l1dec(*a.Usage)}
+		} else {
+			data = r.prepare(a).data
+		}
+		var c *flags.Command
+		c, err = target.AddCommand(l1dec(a.Name), l1dec(a.Short), l1dec(a.Long), data)
+		if err == nil {
+			c.Aliases = l1decs(a.Aliases)
+			if len(a.Aliases) == 0 {
+				c.Aliases = nil
+			}
+			c.Hidden = a.Hidden
+			c.SubcommandsOptional = a.SubOpt
+		}
+	}
+	return err, nil
+}
+
 func runScenario(sc *Scenario) (res *ScenarioResult) {
 	res = &ScenarioResult{Setup: "nil"}
 	defer func() {
@@ -801,84 +910,7 @@ func runScenario(sc *Scenario) (res *ScenarioResult) {
 
 	// attach operations; the first error ends the scenario
 	for ai := range sc.Attach {
-		a := &sc.Attach[ai]
-		var err error
-		var pan interface{}
-		func() {
-			defer func() { pan = recover() }()
-			target := cmdAt(p, a.Path)
-			if a.Kind == "option" {
-				// Group.AddOption on the command's own group: a hand-built Option (fields taken from the
-				// leaf's tag, which only uses keys that map onto Option fields) bound to a fresh variable
-				f := &a.Fields[0]
-				m, terr := flags.VerifScanTag(l1dec(f.Tag))
-				if terr != nil {
-					panic("harness: bad tag for AddOption: " + terr.Error())
-				}
-				get := func(k string) string {
-					if v := m[k]; len(v) > 0 {
-						return v[0]
-					}
-					return ""
-				}
-				truthy := func(v string) bool { return !(v == "" || v == "false" || v == "no" || v == "0") }
-				o := &flags.Option{
-					Description: get("description"), LongName: get("long"), Default: m["default"],
-					EnvDefaultKey: get("env"), EnvDefaultDelim: get("env-delim"),
-					OptionalArgument: truthy(get("optional")), OptionalValue: m["optional-value"],
-					Required: truthy(get("required")), ValueName: get("value-name"), DefaultMask: get("default-mask"),
-					Choices: m["choice"], Hidden: truthy(get("hidden")),
-				}
-				if sn := get("short"); sn != "" {
-					o.ShortName, _ = utf8.DecodeRuneInString(sn)
-				}
-				pt := buildType(f.Type) // *T
-				x := reflect.New(pt.Elem())
-				if v, ok := sc.Init[strconv.Itoa(f.Fid)]; ok && v.P != nil && v.P.V != nil {
-					x = r.mkValue(pt, &v, f.Fid, f.Type)
-				}
-				r.leaves = append(r.leaves, leaf{fid: f.Fid, root: x, path: nil, spec: f.Type})
-				target.AddOption(o, x.Interface())
-			} else if a.Kind == "group" {
-				data, _ := r.newData(a.Fields)
-				var g *flags.Group
-				g, err = target.AddGroup(l1dec(a.Short), l1dec(a.Long), data)
-				if err == nil {
-					g.Namespace = l1dec(a.Ns)
-					g.EnvNamespace = l1dec(a.EnvNs)
-					g.Hidden = a.Hidden
-				}
-			} else {
-				var data interface{}
-				newPath := append(append([]int{}, a.Path...), len(target.Commands()))
-				if a.Exec != nil {
-					var e *string
-					if a.Exec.Err != nil {
-						x := l1dec(*a.Exec.Err)
-						e = &x
-					}
-					if a.Usage != nil {
-						data = &ExecUsageCmd{ExecCmd: ExecCmd{run: r, id: pathID(newPath), err: e}, usage: l1dec(*a.Usage)}
-					} else {
-						data = &ExecCmd{run: r, id: pathID(newPath), err: e}
-					}
-				} else if a.Usage != nil && len(a.Fields) == 0 {
-					data = &UsageOnly{usage: l1dec(*a.Usage)}
-				} else {
-					data, _ = r.newData(a.Fields)
-				}
-				var c *flags.Command
-				c, err = target.AddCommand(l1dec(a.Name), l1dec(a.Short), l1dec(a.Long), data)
-				if err == nil {
-					c.Aliases = l1decs(a.Aliases)
-					if len(a.Aliases) == 0 {
-						c.Aliases = nil
-					}
-					c.Hidden = a.Hidden
-					c.SubcommandsOptional = a.SubOpt
-				}
-			}
-		}()
+		err, pan := r.applyAttach(p, &sc.Attach[ai])
 		if pan != nil {
 			res.Setup = fmt.Sprintf("PANIC@%d", ai)
 			res.Fatal = ""
@@ -888,6 +920,12 @@ func runScenario(sc *Scenario) (res *ScenarioResult) {
 		if err != nil {
 			res.Setup = fmt.Sprintf("%d:%s", ai, renderErr(err))
 			return res
+		}
+	}
+
+	for oi := range sc.Ops {
+		if sc.Ops[oi].Op == "attach" && sc.Ops[oi].Attach != nil {
+			r.prepare(sc.Ops[oi].Attach)
 		}
 	}
 
